@@ -259,8 +259,10 @@ def compare_outs(model_lines, impl_lines):
             return ii == n
         o = ml[mi]
         kind = o[0]
-        if kind in ('exec', 'stop'):
-            return rec(mi + 1, ii)
+        if kind in ('exec', 'stop', 'raise'):
+            if ii < n and impl_lines[ii][0] == kind and impl_lines[ii][1] == o[1]:
+                return rec(mi + 1, ii + 1)
+            return False
         if kind == 'anylines':
             j = ii
             while True:
